@@ -158,6 +158,8 @@ Definition parse_op (f : list bytes) : option op :=
       else if is n "mkval" then optmap (OMakeValue p) (parse_key a)
       else if is n "intotab" then optmap (OIntoTable p) (parse_key a)
       else if is n "intoaot" then optmap (OIntoAot p) (parse_key a)
+      else if is n "sortby" then
+        (if is a "kdesc" then Some (OSortBy p CKeyDesc) else if is a "rank" then Some (OSortBy p CRank) else None)
       else None)
   | [n; p; a; b] =>
     obind (parse_path p) (fun p =>
